@@ -104,6 +104,22 @@ FSplit3 == \E rs \in SeqsUpTo({"RA", "RB"}, 4), a \in Asgs(2), b \in Asgs(2), o 
                 InitCase([Base EXCEPT !.fam = "split3", !.mols = <<"MA">>, !.types = [MA |-> [k \in 1..Len(rs) |-> Res(rs[k], k, 2)]],
                                       !.split = IF o THEN <<sa, sb>> ELSE <<sb, sa>>])
 
+(* ---- listing order independent of residue id (star / graft / capped molecules: core listed first, numbered last): every ---- *)
+(* ---- permutation of the ids 1..n over the listed residues, n = 3, 4                                                   ---- *)
+Perms(n) == {p \in [1..n -> 1..n] : \A i, j \in 1..n : i # j => p[i] # p[j]}
+PermNames(n) == IF n = 3 THEN {<<"RB", "RB", "RB">>, <<"RA", "RB", "RB">>} ELSE {<<"RB", "RB", "RB", "RB">>, <<"RA", "RB", "RB", "RA">>, <<"RB", "RA", "RB", "RB">>}
+FPerm == \E n \in {3, 4} : \E p \in Perms(n), rs \in PermNames(n), r \in Ordered, rn \in {"RA", "RB"}, kd \in {"geom", "rw"} :
+           /\ (kd = "rw" => n = 3)
+           /\ InitCase([Base EXCEPT !.fam = "perm", !.mols = <<"MA", "MA">>,
+                                    !.types = [MA |-> [k \in 1..n |-> Res(rs[k], p[k], 2)]],
+                                    !.bld = <<Line("mol", "MA", 0, 2, 0), Line(kd, rn, r[1], r[2], 1)>>])
+\* -split and -start on a molecule whose residues are not listed in id order
+FPermSplit == \E p \in Perms(3), a \in Asgs(2), hd \in BOOLEAN :
+                InitCase([Base EXCEPT !.fam = "permsplit", !.mols = <<"MA">>,
+                                     !.types = [MA |-> <<Res("RA", p[1], 2), Res("RB", p[2], 2), Res("RB", p[3], 2)>>],
+                                     !.split = IF hd THEN <<[rn |-> "RB", parts |-> PartsOf(a, 2)]>> ELSE <<>>,
+                                     !.start = IF hd THEN <<>> ELSE <<Sp(TRUE, "MA", FALSE, 0, a[1] = "X", "RB", TRUE, p[3])>>])
+
 (* ---- options address the residues -split creates (ids from 0) ---- *)
 ComboTypes == [MB |-> <<Res("RB", 1, 3), Res("RB", 2, 3)>>, LG |-> <<[rn |-> "W", id |-> 1, atoms |-> <<"w1">>]>>]
 FCombo == \E r \in {<<0, 1>>, <<0, 3>>, <<2, 3>>, <<1, 2>>}, q \in {<<0, 1>>, <<0, 3>>, <<2, 4>>, <<1, 2>>, <<0, 5>>} :
@@ -113,7 +129,7 @@ FCombo == \E r \in {<<0, 1>>, <<0, 3>>, <<2, 3>>, <<1, 2>>}, q \in {<<0, 1>>, <<
                          !.start = <<Sp(TRUE, "MB", FALSE, 0, TRUE, "Y", TRUE, 3)>>,
                          !.lig = <<[h |-> Sp(FALSE, "", TRUE, 2, TRUE, "X", TRUE, 0), l |-> Sp(TRUE, "LG", FALSE, 0, FALSE, "", FALSE, 0)]>>])
 
-RestA == FMolD \/ FRes \/ FMulti \/ FMultiR
+RestA == FMolD \/ FRes \/ FMulti \/ FMultiR \/ FPerm \/ FPermSplit
 RestB == FStart \/ FStart2 \/ FLig \/ FLig2 \/ FSplit \/ FSplit2 \/ FSplit3 \/ FCombo
 Rest == RestA \/ RestB
 QuickInit == FMol(4) \/ Rest
@@ -124,7 +140,9 @@ NoDev == {{}}
 
 (* ---- sensitivity: a handful of cases on which every deviation shows ---- *)
 DevCases ==
-  { [Base EXCEPT !.fam = "dev", !.mols = <<"MA", "MB", "MA", "MA">>,
+  { [Base EXCEPT !.fam = "dev", !.mols = <<"MA">>, !.types = [MA |-> <<Res("RB", 4, 2), Res("RB", 1, 2), Res("RB", 2, 2)>>],
+                 !.bld = <<Line("mol", "MA", 0, 1, 0), Line("geom", "RB", 1, 3, 1)>>],
+    [Base EXCEPT !.fam = "dev", !.mols = <<"MA", "MB", "MA", "MA">>,
                  !.bld = <<Line("mol", "MA", 0, 2, 0), Line("geom", "RB", 1, 2, 1), Line("rw", "RA", 1, 2, 2), Line("rw", "RB", 3, 4, 3),
                            Line("dist", "", 0, 1, 4), Line("pers", "", 0, 1, 5)>>],
     [Base EXCEPT !.fam = "dev", !.mols = <<"MA", "MB", "MA", "MC", "MB">>, !.start = <<Sp(TRUE, "MB", TRUE, 2, FALSE, "", TRUE, 2)>>],
@@ -138,7 +156,7 @@ DevCases ==
                  !.split = <<[rn |-> "RB", parts |-> <<[nn |-> "X", atoms |-> <<"a1">>], [nn |-> "Y", atoms |-> <<"a3">>]>>]>>] }
 DevInit == \E c \in DevCases : InitCase(c)
 DevSpec == DevInit /\ [][Next]_vars
-AllFlags == {"closedRes", "closedMol", "resnameIgnored", "molNameIgnored", "splitDrop", "rwLastWins", "molRawRange",
+AllFlags == {"breakAtFirstBeyond", "closedRes", "closedMol", "resnameIgnored", "molNameIgnored", "splitDrop", "rwLastWins", "molRawRange",
              "startIdxIgnoresName", "startNoMolKeyError", "startNameIgnored", "ligIdxIgnoresName", "ligNoTemplate",
              "splitLosesBuild", "ligWrongMol"}
 SingleDevs == {{f} : f \in AllFlags}
@@ -157,6 +175,7 @@ Refute_startNameIgnored == Refute("startNameIgnored")
 Refute_ligIdxIgnoresName == Refute("ligIdxIgnoresName")
 Refute_ligNoTemplate == Refute("ligNoTemplate")
 Refute_splitLosesBuild == Refute("splitLosesBuild")
+Refute_breakAtFirstBeyond == Refute("breakAtFirstBeyond")
 \* ligWrongMol is caught by the action property HandBack (Sel_dev_hand.cfg)
 OnlyWrongMol == {{"ligWrongMol"}}
 =============================================================================
